@@ -61,6 +61,9 @@ EXPR["Compare.chain3"] = "_c0 < _c1 != _c2 is _c3"
 EXPR.update({
     "BoolOp.and2": "_c0 and _c1", "BoolOp.or2": "_c0 or _c1", "BoolOp.and3": "_c0 and _c1 and _c2", "BoolOp.or3": "_c0 or _c1 or _c2",
     "IfExp": "_c0 if _c1 else _c2",
+    "IfExp.or": "_c0 if (_c1 or _c2) else _c3",
+    "IfExp.not-and": "_c0 if not (_c1 and _c2) else _c3",
+    "IfExp.chain": "_c0 if _c1 < _c2 < _c3 else _c4",
     "List.0": "[]", "List.1": "[_c0]", "List.3": "[_c0, _c1, _c2]", "List.star": "[_c0, *_c1, _c2]", "List.starfirst": "[*_c0, _c1]",
     "Tuple.0": "()", "Tuple.2": "(_c0, _c1)", "Tuple.star": "(*_c0, _c1)",
     "Set.1": "{_c0}", "Set.3": "{_c0, _c1, _c2}",
